@@ -72,6 +72,17 @@ def focus_list():
 
 
 def generate(rng, index, tier):
+    if index % 2003 == 11:
+        # a long capture announcing thousands of global strings, some ids more than once, then operations that use them
+        n = [1100, 4200, 8300][(index // 2003) % 3]
+        ctx = worlds.Ctx(0, 300)
+        ops = []
+        for i in range(n):
+            sid = 500000 + (i if i % 97 else i // 2)          # every 97th announcement repeats an earlier id
+            ops.append({'k': 'gstr', 'id': sid, 'dbgid': 1, 'text': 's%d' % sid})
+        ops += worlds.gen_ops(rng, ctx, 3, {'dyld': 2, 'bsd': 1}, depth=1)
+        return {'threads': [{'tid': 300, 'ops': _ascii(ops)}], 'schedule': [], 'focus': 'TRACE_STRING_GLOBAL', 'double_seed': 1, 'colour': False,
+                't0': 0x123411, 'long': n}
     if index % 991 == 5:
         # an operation whose END was lost, thousands of later records of that thread, then the thread starts another one
         n = worlds.LONG_SIZES[(index // 991) % len(worlds.LONG_SIZES)]
@@ -139,7 +150,13 @@ def generate(rng, index, tier):
             ops = worlds.gen_ops(rng, ctx, rng.randint(1, 4), {'bsd': 2, 'path': 2, 'tracedom': 3, 'dyld': 1, 'perf': 1, 'mach': 1}, depth=1)
         threads.append({'tid': tid, 'ops': _ascii(ops)})
     per = kernel.expand_threads(threads, ids)
-    scn = {'threads': threads, 'schedule': kernel.draw_schedule(rng, per, rng.pick(kernel.SHAPES)), 'focus': name,
+    table_spec = 'bundled'
+    if rng.chance(0.08):
+        # the caller's own code table does not name everything the bundled one does (a syscalls-only list, say)
+        helpers = ['VFS_LOOKUP', 'TRACE_STRING_GLOBAL', 'PERF_THD_Data', 'PERF_STK_UHdr', 'PERF_STK_UData', 'DYLD_uuid_map_a',
+                   'RealFaultAddressInternal', 'TRACE_DATA_NEWTHREAD', 'TRACE_STRING_NEWTHREAD', 'INTERRUPT']
+        table_spec = {'drop': [ids[h] for h in rng.sample(helpers, rng.randint(1, 3)) if h != name and h in ids]}
+    scn = {'threads': threads, 'schedule': kernel.draw_schedule(rng, per, rng.pick(kernel.SHAPES)), 'focus': name, 'table': table_spec,
            'double_seed': rng.randrange(1 << 30), 'colour': index % 7 == 0,
            't0': (rng.randrange(1, 1 << 30) << 8) | 0x11, 'tsmode': worlds.draw_tsmode(rng, p=0.2)}
     return scn
